@@ -524,7 +524,7 @@ Lemma inv_step s e : inv s -> inv (step_state s e).
 Proof.
   intros (H & I & C). unfold step_state.
   destruct (s_closed s) eqn:Cl; [split; [exact H|split; [exact I|intros _; apply C; reflexivity]]|].
-  destruct e as [j pka|j| | | | | | |pkts|pkts| |ds|j v|j].
+  destruct e as [j pka|j| | | | | | |pkts|pkts| |ds|j v|j|j kin kout].
   - (* EAddPeer *)
     destruct (find_peer j (s_peers s)) as [q|] eqn:F.
     + destruct (s_up s) eqn:U.
@@ -647,6 +647,7 @@ Proof.
       revert Rp. unfold bal. match goal with |- context [resting (put_peer ?qq ?l)] => generalize (resting (put_peer qq l)) end.
       generalize (resting (s_peers s)). intros r r' Rp. vlia.
     + apply idle_ok_put; [exact I|]. cbn [set_keys q_run q_staged]. apply I. eapply find_peer_in; exact F.
+  - (* EStraggle *) split; [exact H|split; [exact I|rewrite Cl; discriminate]].
 Qed.
 
 Lemma reached_inv c evs : inv (reached c evs).
@@ -783,42 +784,307 @@ Proof.
     try (destruct (s_up s); cbn [negb] in *; congruence).
 Qed.
 
-Lemma flags_step s e x :
-  x_up x = s_up s -> x_closed x = s_closed s ->
-  x_up (sp_event x e) = s_up (step_state s e) /\ x_closed (sp_event x e) = s_closed (step_state s e).
+(* ------------------------------------------------------------ nothing is held while the interface is down *)
+
+Definition allstopped (ps : list peer) : Prop := forall q, In q ps -> q_run q = false.
+Definition dinv (s : state) : Prop := s_up s = false -> allstopped (s_peers s).
+
+Lemma allstopped_put q' ps : allstopped ps -> q_run q' = false -> allstopped (put_peer q' ps).
+Proof. intros H Hq x Hx. destruct (in_put_peer _ _ _ Hx) as [->|Hi]; auto. Qed.
+
+Lemma tun_group_stopped up ps a jk : allstopped ps -> fst (tun_group up (ps, a) jk) = ps.
 Proof.
-  intros Hu Hc. destruct (s_closed s) eqn:Cl.
-  - rewrite (closed_stays s e Cl). unfold sp_event. rewrite Hc. rewrite Cl. auto.
-  - rewrite (up_step s e Cl), (closed_step s e Cl). unfold sp_event. rewrite Hc.
-    destruct e; cbn [x_up x_closed]; auto.
+  intros H. unfold tun_group. destruct (find_peer (fst jk) ps) as [q|] eqn:F; [|reflexivity].
+  rewrite (H q (find_peer_in _ _ _ F)). reflexivity.
 Qed.
 
-Lemma model_meets_spec_gen c evs : forall s x,
-  inv s -> s_cfg s = c -> x_up x = s_up s -> x_closed x = s_closed s ->
-  forallb (fun v => match v with [] => true | _ => false end) (outs (sp_step c) x (model_trace s evs)) = true.
+Lemma tun_groups_stopped up g : forall ps a, allstopped ps -> fst (fold_left (tun_group up) g (ps, a)) = ps.
 Proof.
-  induction evs as [|e r IH]; intros s x Hi Hc Hu Hcl; [reflexivity|].
+  induction g as [|x g IH]; intros ps a H; cbn [fold_left]; [reflexivity|].
+  pose proof (tun_group_stopped up ps a x H) as E. destruct (tun_group up (ps, a) x) as [ps1 a1]. cbn [fst] in E. subst ps1.
+  apply IH. exact H.
+Qed.
+
+Lemma tun_reads_stopped up l : forall ps a, allstopped ps -> fst (fold_left (tun_read up) l (ps, a)) = ps.
+Proof.
+  induction l as [|x l IH]; intros ps a H; cbn [fold_left]; [reflexivity|].
+  assert (E : fst (tun_read up (ps, a) x) = ps) by (unfold tun_read; apply tun_groups_stopped; exact H).
+  destruct (tun_read up (ps, a) x) as [ps1 a1]. cbn [fst] in E. subst ps1. apply IH. exact H.
+Qed.
+
+Lemma stop_all_stopped ps : forall a, allstopped (fst (stop_all ps a)).
+Proof.
+  induction ps as [|q r IH]; intros a; cbn [stop_all]; [intros x []|].
+  destruct (stop q a) as [q1 a1] eqn:S. specialize (IH a1). destruct (stop_all r a1) as [r1 a2]. cbn [fst] in *.
+  intros x [<-|Hx]; [|auto]. unfold stop in S. destruct (q_run q) eqn:R; injection S; intros _ <-; [reflexivity|exact R].
+Qed.
+
+Lemma dinv_step s e : dinv s -> dinv (step_state s e).
+Proof.
+  intros D. unfold dinv, step_state. destruct (s_closed s) eqn:Cl; [exact D|].
+  destruct e as [j pka|j| | | | | | |pkts|pkts| |ds|j v|j|j kin kout].
+  - destruct (find_peer j (s_peers s)) as [q|] eqn:F.
+    + destruct (s_up s) eqn:U.
+      * match goal with |- context [if ?c then send_keepalive true ?q0 ?a else _] =>
+          destruct (if c then send_keepalive true q0 a else send_staged true q0 a) end.
+        cbn [with_pa s_up]. rewrite U. discriminate.
+      * cbn [with_pa s_up s_peers fst]. intros _. apply allstopped_put; [apply D; exact U|]. cbn [q_run].
+        apply (D U). eapply find_peer_in; exact F.
+    + match goal with |- context [if ?c then send_keepalive true ?q0 ?a else _] =>
+        destruct (if c then send_keepalive true q0 a else (q0, a)) as [q1 a1] eqn:G end.
+      cbn [with_pa s_up s_peers fst]. intros U. rewrite U in G. cbn [andb] in G. injection G; intros _ <-.
+      intros x Hx. apply in_app_or in Hx. destruct Hx as [Hx|[<-|[]]]; [apply (D U); exact Hx|reflexivity].
+  - destruct (find_peer j (s_peers s)) as [q|]; [|exact D]. cbn [with_pa s_up s_peers fst]. intros U x Hx.
+    apply (D U). eapply in_del_peer; exact Hx.
+  - cbn [with_pa s_up s_peers fst]. intros _ x [].
+  - cbn [with_pa s_up s_peers fst]. intros U x Hx. apply in_map_iff in Hx. destruct Hx as (y & <- & Hy). cbn [set_keys q_run]. apply (D U y Hy).
+  - destruct (s_up s) eqn:U; [exact D|]. cbn [s_up]. discriminate.
+  - destruct (s_up s) eqn:U; cbn [negb]; [|exact D]. cbn [s_up s_peers]. intros _. apply stop_all_stopped.
+  - cbn [s_up s_peers]. intros _ x [].
+  - exact D.
+  - cbn [with_pa s_up s_peers]. intros U. rewrite tun_reads_stopped by (apply D; exact U). apply D; exact U.
+  - cbn [with_pa s_up s_peers]. intros U. rewrite tun_reads_stopped by (apply D; exact U). apply D; exact U.
+  - cbn [s_up s_peers]. intros _ x [].
+  - destruct (s_up s) eqn:U; cbn [negb]; [|exact D]. cbn [with_pa s_up]. rewrite U. discriminate.
+  - destruct (find_peer j (s_peers s)) as [q|] eqn:F; [|exact D]. destruct (q_cur q); [|exact D].
+    cbn [with_pa s_up s_peers fst]. intros U. apply allstopped_put; [apply D; exact U|]. cbn [set_keys q_run].
+    apply (D U). eapply find_peer_in; exact F.
+  - destruct (find_peer j (s_peers s)) as [q|] eqn:F; [|exact D].
+    cbn [with_pa s_up s_peers fst]. intros U. apply allstopped_put; [apply D; exact U|]. cbn [set_keys q_run].
+    apply (D U). eapply find_peer_in; exact F.
+  - exact D.
+Qed.
+
+Lemma reached_dinv c evs : dinv (reached c evs).
+Proof.
+  unfold reached. apply (final_inv step dinv); [|intros _ x []].
+  intros s e Hs. unfold step. cbn [fst]. apply dinv_step. exact Hs.
+Qed.
+
+Lemma resting_stopped ps : allstopped ps -> idle_ok ps -> resting ps = vzero.
+Proof.
+  intros H I. induction ps as [|q r IH]; [reflexivity|]. rewrite resting_cons.
+  rewrite (I q (or_introl eq_refl) (H q (or_introl eq_refl))), vstaged_nil.
+  rewrite IH; [reflexivity| |]; intros x Hx; [apply H|apply I]; right; exact Hx.
+Qed.
+
+(* while the interface is down nothing rests in any staged queue: Down flushes them, a peer configured while the
+   interface is down is not started, and the TUN reader releases what it routed to a stopped peer *)
+Theorem down_holds_nothing : forall c evs,
+  s_up (reached c evs) = false -> resting (s_peers (reached c evs)) = vzero.
+Proof.
+  intros c evs U. apply resting_stopped; [apply (reached_dinv c evs U)|]. destruct (reached_inv c evs) as (_ & I & _). exact I.
+Qed.
+
+(* ------------------------------------------------------------ stragglers (xstate) *)
+
+Definition xreached (c : cfg) (evs : list ev) : xstate := final xstep (xinit c) evs.
+
+Lemma x_core x e : x_s (xstep_state x e) = step_state (x_s x) e.
+Proof.
+  unfold xstep_state. destruct (s_closed (x_s x)); destruct e; cbn [x_s]; try reflexivity;
+    dmatch; reflexivity.
+Qed.
+
+Lemma x_core_reached c evs : x_s (xreached c evs) = reached c evs.
+Proof.
+  unfold xreached, reached. generalize (xinit c) (init c) (eq_refl : x_s (xinit c) = init c).
+  induction evs as [|e r IH]; intros x s E; [exact E|].
+  unfold final in *. cbn [run]. unfold xstep at 1, step at 1.
+  specialize (IH (xstep_state x e) (step_state s e)).
+  destruct (run xstep (xstep_state x e) r) as [x2 o2]. destruct (run step (step_state s e) r) as [s2 p2].
+  cbn [fst] in *. apply IH. rewrite x_core, E. reflexivity.
+Qed.
+
+Lemma lsum_cons x l : lsum (x :: l) = vadd (snd x) (lsum l).
+Proof. reflexivity. Qed.
+
+Lemma lsum_split j l : lsum l = vadd (lost_of j l) (lsum (lost_rm j l)).
+Proof.
+  unfold lost_of, lost_rm. induction l as [|x l IH]; [reflexivity|].
+  cbn [filter]. destruct (fst x =? j); cbn [negb]; rewrite !lsum_cons, IH; vlia.
+Qed.
+
+Definition xcons (x : xstate) : Prop :=
+  a_get (x_acc x) = vadd (a_put (x_acc x)) (vadd (lsum (x_lost x)) (x_garbage x)).
+Definition xinv (x : xstate) : Prop := xcons x /\ (s_closed (x_s x) = true -> x_lost x = []).
+
+Lemma xinv_step x e : xinv x -> xinv (xstep_state x e).
+Proof.
+  intros (H & C). unfold xinv. rewrite x_core. unfold xstep_state, xcons in *.
+  destruct (s_closed (x_s x)) eqn:Cl.
+  - rewrite (closed_stays _ e Cl), Cl. specialize (C eq_refl).
+    destruct e; cbn [x_acc x_lost x_garbage]; (split; [|auto]); rewrite ?C in *; cbn [lsum fold_right] in *;
+      revert H; generalize (x_acc x) (x_garbage x); intros a g H; vlia.
+  - destruct e; cbn [x_acc x_lost x_garbage];
+      try (split; [exact H|intros Hx; rewrite closed_step in Hx by exact Cl; discriminate]).
+    + (* ERemovePeer *) split; [|intros Hx; rewrite closed_step in Hx by exact Cl; discriminate].
+      rewrite (lsum_split j (x_lost x)) in H. revert H.
+      generalize (x_acc x) (x_garbage x) (lost_of j (x_lost x)) (lsum (lost_rm j (x_lost x))). intros a g u v H. vlia.
+    + (* ERemoveAll *) split; [|reflexivity]. cbn [lsum fold_right]. revert H. generalize (x_acc x) (x_garbage x) (lsum (x_lost x)). intros a g u H. vlia.
+    + (* EUp *) destruct (s_up (x_s x)); cbn [x_acc x_lost x_garbage];
+        (split; [|intros Hx; rewrite closed_step in Hx by exact Cl; discriminate]); [exact H|].
+      cbn [lsum fold_right]. revert H. generalize (x_acc x) (x_garbage x) (lsum (x_lost x)). intros a g u H. vlia.
+    + (* EClose *) split; [|reflexivity]. cbn [lsum fold_right]. revert H. generalize (x_acc x) (x_garbage x) (lsum (x_lost x)). intros a g u H. vlia.
+    + (* EGC *) split; [|intros Hx; rewrite closed_step in Hx by exact Cl; discriminate].
+      revert H. generalize (x_acc x) (x_garbage x) (lsum (x_lost x)). intros a g u H. vlia.
+    + (* EFatalRead *) split; [|reflexivity]. cbn [lsum fold_right]. revert H. generalize (x_acc x) (x_garbage x) (lsum (x_lost x)). intros a g u H. vlia.
+    + (* EStraggle *)
+      destruct (find_peer j (s_peers (x_s x))) as [q|]; [destruct (q_run q)|]; cbn [x_acc x_lost x_garbage];
+        (split; [|intros Hx; rewrite closed_step in Hx by exact Cl; discriminate]); try exact H.
+      rewrite lsum_cons. cbn [snd]. revert H. generalize (x_acc x) (x_garbage x) (lsum (x_lost x)) (vstraggle kin kout). intros a g u w H. vlia.
+Qed.
+
+Lemma xinv_init c : xinv (xinit c).
+Proof. unfold xinv, xcons, xinit; cbn. split; [reflexivity|discriminate]. Qed.
+
+Lemma xreached_inv c evs : xinv (xreached c evs).
+Proof.
+  unfold xreached. apply (final_inv xstep xinv); [|apply xinv_init].
+  intros x e Hx. unfold xstep. cbn [fst]. apply xinv_step. exact Hx.
+Qed.
+
+(* what the five counts show at every quiescent point: idle baseline + staged packets + what stragglers left in the
+   autodraining queues of configured peers + what removed peers' queues still hold until they are garbage-collected *)
+Theorem total_conservation : forall c evs,
+  let x := xreached c evs in
+  xoutstanding x = vadd (vadd (base_of (x_s x)) (resting (s_peers (x_s x)))) (vadd (lsum (x_lost x)) (x_garbage x)).
+Proof.
+  intros c evs. cbv zeta. destruct (xreached_inv c evs) as (Hx & _).
+  pose proof (conservation c evs) as Hc. cbv zeta in Hc. rewrite <- x_core_reached in Hc.
+  unfold xoutstanding, xcons in *. rewrite Hc, Hx.
+  generalize (a_put (s_acc (x_s (xreached c evs)))) (a_put (x_acc (xreached c evs)))
+             (base_of (x_s (xreached c evs))) (resting (s_peers (x_s (xreached c evs))))
+             (lsum (x_lost (xreached c evs))) (x_garbage (xreached c evs)).
+  intros p q b r l g. vlia.
+Qed.
+
+(* after Close and the finalisers (runtime.GC), whatever happens in between and afterwards: zero *)
+Lemma final_xstep_app c a b : xreached c (a ++ b) = final xstep (xreached c a) b.
+Proof. unfold xreached. apply final_app. Qed.
+
+Definition gzero (x : xstate) : Prop := s_closed (x_s x) = true /\ x_garbage x = vzero.
+
+Lemma gzero_step x e : gzero x -> gzero (xstep_state x e).
+Proof.
+  intros (Cl & G). unfold gzero. rewrite x_core, (closed_stays _ e Cl). split; [exact Cl|].
+  unfold xstep_state. rewrite Cl. destruct e; cbn [x_garbage]; auto.
+Qed.
+
+Lemma closed_xstep x e : s_closed (x_s x) = true -> s_closed (x_s (xstep_state x e)) = true.
+Proof. intros Cl. rewrite x_core, (closed_stays _ e Cl). exact Cl. Qed.
+
+Theorem closed_gc_zero : forall c evs evs1 evs2,
+  xoutstanding (xreached c (evs ++ EClose :: evs1 ++ EGC :: evs2)) = vzero.
+Proof.
+  intros c evs evs1 evs2.
+  assert (G : gzero (xreached c (evs ++ EClose :: evs1 ++ EGC :: evs2))).
+  { change (EClose :: evs1 ++ EGC :: evs2) with ([EClose] ++ evs1 ++ [EGC] ++ evs2).
+    rewrite final_xstep_app, !final_app.
+    assert (C1 : s_closed (x_s (final xstep (xreached c evs) [EClose])) = true).
+    { unfold final. cbn [run xstep fst]. rewrite x_core. apply close_closes. }
+    assert (C2 : s_closed (x_s (final xstep (final xstep (xreached c evs) [EClose]) evs1)) = true).
+    { apply (final_inv xstep (fun x => s_closed (x_s x) = true)); [|exact C1].
+      intros x e Hx. unfold xstep. cbn [fst]. apply closed_xstep. exact Hx. }
+    assert (G3 : gzero (final xstep (final xstep (final xstep (xreached c evs) [EClose]) evs1) [EGC])).
+    { unfold final at 1. cbn [run xstep fst]. split; [apply closed_xstep; exact C2|].
+      unfold xstep_state. rewrite C2. reflexivity. }
+    apply (final_inv xstep gzero); [|exact G3].
+    intros x e Hx. unfold xstep. cbn [fst]. apply gzero_step. exact Hx. }
+  destruct G as (Cl & G).
+  pose proof (total_conservation c (evs ++ EClose :: evs1 ++ EGC :: evs2)) as T. cbv zeta in T. rewrite T.
+  destruct (xreached_inv c (evs ++ EClose :: evs1 ++ EGC :: evs2)) as (_ & L). rewrite (L Cl), G.
+  pose proof (reached_inv c (evs ++ EClose :: evs1 ++ EGC :: evs2)) as (_ & _ & Cc).
+  rewrite <- x_core_reached in Cc. destruct (Cc Cl) as (Hp & _). rewrite Hp.
+  unfold base_of, baseline. rewrite Cl. reflexivity.
+Qed.
+
+(* ------------------------------------------------------------ the model's traces satisfy the specification *)
+
+Lemma xtotal x : inv (x_s x) -> xinv x ->
+  xoutstanding x = vadd (vadd (base_of (x_s x)) (resting (s_peers (x_s x)))) (vadd (lsum (x_lost x)) (x_garbage x)).
+Proof.
+  intros (Hc & _) (Hx & _). unfold xoutstanding, xcons, cons_ok in *. rewrite Hc, Hx.
+  generalize (a_put (s_acc (x_s x))) (a_put (x_acc x)) (base_of (x_s x)) (resting (s_peers (x_s x)))
+             (lsum (x_lost x)) (x_garbage x).
+  intros p q b r l g. vlia.
+Qed.
+
+Definition agree (x : xstate) (y : sp) : Prop :=
+  x_up y = s_up (x_s x) /\ x_closed y = s_closed (x_s x) /\ sp_prev y = lsum (x_lost x) /\ sp_garb y = x_garbage x.
+
+Lemma vsub_add_r a b : vsub (vadd a b) b = a.
+Proof. vlia. Qed.
+Lemma vsub_zero a : vsub a vzero = a.
+Proof. vlia. Qed.
+
+Lemma x_lost_garbage_step x e :
+  let x1 := xstep_state x e in
+  x_garbage x1 =
+  match e with
+  | EGC => vzero
+  | ERemovePeer _ | ERemoveAll | EClose | EFatalRead =>
+      if s_closed (x_s x) then x_garbage x else vadd (x_garbage x) (vsub (lsum (x_lost x)) (lsum (x_lost x1)))
+  | _ => x_garbage x
+  end.
+Proof.
+  cbv zeta. unfold xstep_state. destruct (s_closed (x_s x)); destruct e; cbn [x_garbage x_lost]; try reflexivity;
+    try (cbn [lsum fold_right]; rewrite vsub_zero; reflexivity).
+  - rewrite (lsum_split j (x_lost x)), vsub_add_r. reflexivity.
+  - destruct (s_up (x_s x)); reflexivity.
+  - destruct (find_peer j (s_peers (x_s x))) as [q|]; [destruct (q_run q)|]; reflexivity.
+Qed.
+
+Lemma agree_step x y e : agree x y -> agree (xstep_state x e) (sp_event y e (observe (xstep_state x e))).
+Proof.
+  intros (Hu & Hc & Hp & Hg). unfold agree. rewrite x_core.
+  assert (G : sp_garbage y e (observe (xstep_state x e)) = x_garbage (xstep_state x e)).
+  { pose proof (x_lost_garbage_step x e) as L. cbv zeta in L. rewrite L. unfold sp_garbage, observe; cbn [o_lost].
+    rewrite Hc, Hp, Hg. destruct e; reflexivity. }
+  unfold sp_event. rewrite G, Hc. destruct (s_closed (x_s x)) eqn:Cl.
+  - cbn [x_up x_closed sp_prev sp_garb]. rewrite (closed_stays _ e Cl), Cl. unfold observe; cbn [o_lost]. auto.
+  - rewrite (up_step _ e Cl), (closed_step _ e Cl). unfold observe; cbn [o_lost].
+    destruct e; cbn [x_up x_closed sp_prev sp_garb]; auto.
+Qed.
+
+Lemma model_meets_spec_gen c evs : forall x y,
+  inv (x_s x) -> dinv (x_s x) -> xinv x -> s_cfg (x_s x) = c -> agree x y ->
+  forallb (fun v => match v with [] => true | _ => false end) (outs (sp_step c) y (model_trace x evs)) = true.
+Proof.
+  induction evs as [|e r IH]; intros x y Hi Hd Hx Hc Ha; [reflexivity|].
   cbn [model_trace]. unfold outs. cbn [run]. unfold sp_step at 1. cbn [fst snd].
-  destruct (run (sp_step c) (sp_event x e) (model_trace (step_state s e) r)) as [x2 rs] eqn:E.
+  set (x1 := xstep_state x e) in *.
+  destruct (run (sp_step c) (sp_event y e (observe x1)) (model_trace x1 r)) as [y2 rs] eqn:E.
   cbn [snd forallb].
-  pose proof (inv_step s e Hi) as Hi1.
-  destruct (flags_step s e x Hu Hcl) as (Hu1 & Hcl1).
-  assert (Hc1 : s_cfg (step_state s e) = c) by (rewrite cfg_step; exact Hc).
-  specialize (IH (step_state s e) (sp_event x e) Hi1 Hc1 Hu1 Hcl1). unfold outs in IH. rewrite E in IH. cbn [snd] in IH.
-  rewrite IH. rewrite Bool.andb_true_r.
-  assert (Hexp : expected c (sp_event x e) (observe (step_state s e)) = o_counts (observe (step_state s e))).
-  { set (s1 := step_state s e) in *. destruct Hi1 as (H1 & _ & C1).
-    unfold expected, observe; cbn [o_counts o_selems o_sconts].
-    assert (Ho : outstanding s1 = vadd (base_of s1) (resting (s_peers s1))).
-    { unfold outstanding. rewrite H1. apply vsub_add. }
-    rewrite Ho, Hcl1. unfold base_of, baseline. rewrite Hc1, <- Hu1.
-    destruct (s_closed s1) eqn:Cl.
-    - destruct (C1 eq_refl) as (Hp & _). rewrite Hp. reflexivity.
+  assert (Hi1 : inv (x_s x1)) by (unfold x1; rewrite x_core; apply inv_step; exact Hi).
+  assert (Hd1 : dinv (x_s x1)) by (unfold x1; rewrite x_core; apply dinv_step; exact Hd).
+  assert (Hx1 : xinv x1) by (apply xinv_step; exact Hx).
+  assert (Hc1 : s_cfg (x_s x1) = c) by (unfold x1; rewrite x_core, cfg_step; exact Hc).
+  pose proof (agree_step x y e Ha) as Ha1. fold x1 in Ha1.
+  specialize (IH x1 _ Hi1 Hd1 Hx1 Hc1 Ha1). unfold outs in IH. rewrite E in IH. cbn [snd] in IH.
+  rewrite IH, Bool.andb_true_r.
+  destruct Ha1 as (Au & Ac & _ & Ag).
+  assert (Hexp : expected c (sp_event y e (observe x1)) (observe x1) = o_counts (observe x1)).
+  { unfold expected. rewrite Ac, Ag, Au. unfold observe at 4; cbn [o_counts]. rewrite (xtotal x1 Hi1 Hx1).
+    unfold observe; cbn [o_selems o_sconts o_lost]. unfold base_of, baseline. rewrite Hc1.
+    destruct Hi1 as (_ & _ & C1). destruct Hx1 as (_ & L1).
+    destruct (s_closed (x_s x1)) eqn:Cl.
+    - destruct (C1 eq_refl) as (Hp & _). rewrite Hp, (L1 eq_refl). cbn [resting lsum fold_right]. generalize (x_garbage x1). intros g. vlia.
     - rewrite <- resting_shape. reflexivity. }
-  rewrite Hexp, vdiff_refl. reflexivity.
+  rewrite Hexp, vdiff_refl.
+  assert (H7 : negb (x_up (sp_event y e (observe x1))) && negb (x_closed (sp_event y e (observe x1))) &&
+               negb (o_selems (observe x1) =? 0) = false).
+  { rewrite Au, Ac. destruct (s_up (x_s x1)) eqn:U; [reflexivity|]. cbn [negb andb].
+    destruct (s_closed (x_s x1)); [reflexivity|]. cbn [negb andb]. unfold observe; cbn [o_selems].
+    destruct Hi1 as (_ & I1 & _). rewrite (resting_stopped _ (Hd1 U) I1). reflexivity. }
+  rewrite H7. reflexivity.
 Qed.
 
-Theorem model_meets_spec : forall c evs, holdsb c (model_trace (init c) evs) = true.
+Theorem model_meets_spec : forall c evs, holdsb c (model_trace (xinit c) evs) = true.
 Proof.
-  intros c evs. unfold holdsb, verdicts. apply model_meets_spec_gen; try reflexivity. apply inv_init.
+  intros c evs. unfold holdsb, verdicts. apply model_meets_spec_gen; try reflexivity.
+  - apply inv_init.
+  - intros _ q [].
+  - apply xinv_init.
+  - unfold agree, xinit, sp_init; cbn. auto.
 Qed.
